@@ -54,3 +54,17 @@ Proof.
     + apply IH; simpl; [rewrite H1|rewrite H2|exact H3|exact Hl]; reflexivity.
 Qed.
 End Q.
+
+(* the two hypotheses of T61 are necessary: a serialiser that loses a value, or a file format that changes a string so
+   that it deserialises differently, gives a two-step history whose report differs from what was passed in *)
+Section R.
+Variables V S : Type.
+Variables (ser : V -> S) (deser : S -> V) (file : S -> S).
+Let d0 : dataset V S := {| a_sections := None; a_matching := None; c_trans_att := None |}.
+Lemma lossy_serialiser_is_visible v m t : deser (ser v) <> v ->
+  sections_of V S deser (run V S ser deser file d0 [Calibrate V v m t]) <> Some v.
+Proof. intros H E. simpl in E. unfold sections_of in E. simpl in E. injection E as E. exact (H E). Qed.
+Lemma lossy_file_is_visible v m t : deser (file (ser v)) <> v ->
+  sections_of V S deser (run V S ser deser file d0 [Calibrate V v m t; StoreLoad V]) <> Some v.
+Proof. intros H E. simpl in E. unfold sections_of in E. simpl in E. injection E as E. exact (H E). Qed.
+End R.
